@@ -5,7 +5,7 @@
    modelling assumption; everything after the encoder - offsets, label table, fixup chains, cross-section resolution - is C03's model,
    for which AsmOrder.order_irrelevant is proved. *)
 From Coq Require Import ZArith List Bool Lia Arith Permutation.
-From Verif Require Import Labels.LabelsModel Builder.BuilderModel Builder.BuilderProofs Builder.BuilderGrouping Builder.AsmOrder.
+From Verif Require Import Labels.LabelsModel Builder.BuilderModel Builder.BuilderProofs Builder.BuilderGrouping Builder.AsmOrder Builder.AsmOrderAny.
 Import ListNotations.
 Local Open Scope Z_scope.
 
@@ -98,6 +98,34 @@ Proof.
   assert (HV2 : secs_valid ns (trace (replay (BuilderModel.run (init_state rs) cs)))).
   { intros x Hx. rewrite trace_replay in Hx. apply node_ecall_section in Hx. apply HS in Hx. destruct Hx as [->|Hx]; [lia|apply HV; exact Hx]. }
   apply order_irrelevant'; try assumption.
+  - intros k. symmetry. apply (same_projections ns); assumption.
+  - apply (tags_tprog ns); [lia|exact HV].
+  - apply (tags_tprog ns); [lia|exact HV2].
+Qed.
+
+(* ... and without the side condition on label deltas (AsmOrderAny.order_irrelevant_any): any deltas, provided neither assembling refuses a
+   delta for its range; the images then agree up to the bytes of delta sites (equal-length raw items) *)
+Theorem same_image_any : forall nl ns offs rs cs,
+  Forall (fun c => is_emitter_call c = true) cs -> all_ok (init_state rs) cs = true ->
+  let direct := program (trace cs) in
+  let serialized := program (trace (replay (BuilderModel.run (init_state rs) cs))) in
+  secs_valid ns (trace cs) -> NoDup (bound_labels direct) ->
+  let s0 := LabelsModel.run init (prelude nl ns) in
+  no_misfit s0 direct -> no_misfit s0 serialized -> nowrap nl ns (res_from s0 direct) offs -> nowrap nl ns (res_from s0 serialized) offs ->
+  let s1 := LabelsModel.run init ((prelude nl ns ++ expand direct) ++ [OResolve offs]) in
+  let s2 := LabelsModel.run init ((prelude nl ns ++ expand serialized) ++ [OResolve offs]) in
+  labels s1 = labels s2 /\
+  forall k, (k < S ns)%nat ->
+    s_len (nsec s1 k) = s_len (nsec s2 k) /\
+    exists i1 i2, sec_image (refs s1) (s_items (nsec s1 k)) = gimage (labels s1) offs i1 /\
+                  sec_image (refs s2) (s_items (nsec s2 k)) = gimage (labels s1) offs i2 /\
+                  Forall2 irel2 i1 i2.
+Proof.
+  intros nl ns offs rs cs HE HOK direct serialized HV HN s0 M1 M2 W1 W2.
+  destruct (replay_is_grouping rs cs HE HOK) as (HP & HS & _).
+  assert (HV2 : secs_valid ns (trace (replay (BuilderModel.run (init_state rs) cs)))).
+  { intros x Hx. rewrite trace_replay in Hx. apply node_ecall_section in Hx. apply HS in Hx. destruct Hx as [->|Hx]; [lia|apply HV; exact Hx]. }
+  apply order_irrelevant_any; try assumption.
   - intros k. symmetry. apply (same_projections ns); assumption.
   - apply (tags_tprog ns); [lia|exact HV].
   - apply (tags_tprog ns); [lia|exact HV2].
